@@ -120,14 +120,46 @@ func eval(pi *pkgInfo, e ast.Expr, iotaVal int) (val, bool) {
 		}
 		if a.kind == "int" && b.kind == "int" {
 			switch x.Op {
+			// constant arithmetic is exact in Go: a result outside 0 .. 2^64-1 is "not evaluable" here, never wrapped
 			case token.ADD:
+				if a.n+b.n < a.n {
+					return val{}, false
+				}
 				return val{kind: "int", n: a.n + b.n}, true
 			case token.SUB:
+				if a.n < b.n {
+					return val{}, false
+				}
 				return val{kind: "int", n: a.n - b.n}, true
 			case token.MUL:
+				if a.n != 0 && (a.n*b.n)/a.n != b.n {
+					return val{}, false
+				}
 				return val{kind: "int", n: a.n * b.n}, true
 			case token.SHL:
+				if b.n >= 64 || (a.n<<b.n)>>b.n != a.n {
+					return val{}, false
+				}
 				return val{kind: "int", n: a.n << b.n}, true
+			case token.SHR:
+				if b.n >= 64 {
+					return val{kind: "int", n: 0}, true
+				}
+				return val{kind: "int", n: a.n >> b.n}, true
+			case token.QUO:
+				if b.n == 0 {
+					return val{}, false
+				}
+				return val{kind: "int", n: a.n / b.n}, true
+			case token.REM:
+				if b.n == 0 {
+					return val{}, false
+				}
+				return val{kind: "int", n: a.n % b.n}, true
+			case token.AND:
+				return val{kind: "int", n: a.n & b.n}, true
+			case token.OR:
+				return val{kind: "int", n: a.n | b.n}, true
 			}
 		}
 	case *ast.CallExpr:
